@@ -16,6 +16,12 @@ E3_ASSUME = [
 ]
 
 PROPS_ADD = {
+    "C13": {
+        "engine": "logsim", "level": "fault_enumeration", "budget": {"quick": 20, "thorough": 600},
+        "title": "WAL replays exactly what was appended, tolerating any torn tail",
+        "technique": "TODO", "rule": "TODO", "level_text": "TODO", "note": "TODO",
+        "design_ref": "7/C13", "assumptions": E3_ASSUME,
+    },
     "C35": {
         "engine": "logsim", "level": "exploration", "budget": {"quick": 20, "thorough": 600},
         "title": "SST tables serve exactly the entries they were built from",
